@@ -99,7 +99,9 @@ func (s scenario) String() string {
 	return fmt.Sprintf("%dthr x %diter/%s/maxBuffer=%d", s.threads, s.iters, s.mode, s.maxBuffer)
 }
 
-type objIDs struct{ m map[*lazyproto.DecodeResult]int }
+type objIDs struct {
+	m map[*lazyproto.DecodeResult]int
+}
 
 func (o *objIDs) id(r *lazyproto.DecodeResult) int {
 	if v, ok := o.m[r]; ok {
@@ -443,7 +445,7 @@ func main() {
 		return s
 	}())
 	racePass(r)
-	r.Rule("controlled cooperative scheduler over the real lazyproto code (sync.Pool behind the shim): threads share one Decoder, each iteration = Decode(own unique input) . read all . NestedResults . read nested (+ nested of nested) . Close; scheduling points = every Pool.Get/Put of every pool + every API-call boundary + between obtaining values and re-verifying them; DFS over thread choices (preemption-bounded) x pool answers (deviation-bounded), sharded over 16 processes on depth-2 subtrees. Oracle: every value a thread reads equals the reference parse of its own input, also after other threads ran; no panic, no deadlock. states/transitions = scheduling/choice points executed; traces = complete executions; distinct_nontrivial = executions in which some thread received an object recycled from the pool. distinct_object_assignment_outcomes/* count the distinct assignments of pooled objects to (thread, iteration) that were observed (shows that recycling really interleaved).")
+	r.Rule("controlled cooperative scheduler over the real lazyproto code (sync.Pool behind the shim): (inputs include a malformed nested element, two trailing EMPTY nested elements, and - offered first by the last thread - an outer input that is rejected after a valid prefix) threads share one Decoder, each iteration = Decode(own unique input) . read all . NestedResults . read nested (+ nested of nested) . Close; scheduling points = every Pool.Get/Put of every pool + every API-call boundary + between obtaining values and re-verifying them; DFS over thread choices (preemption-bounded) x pool answers (deviation-bounded), sharded over 16 processes on depth-2 subtrees. Oracle: every value a thread reads equals the reference parse of its own input, also after other threads ran; no panic, no deadlock. states/transitions = scheduling/choice points executed; traces = complete executions; distinct_nontrivial = executions in which some thread received an object recycled from the pool. distinct_object_assignment_outcomes/* count the distinct assignments of pooled objects to (thread, iteration) that were observed (shows that recycling really interleaved).")
 	r.Assume("unsynchronised accesses inside one API call are invisible to a cooperative scheduler; the free-running -race pass (sampling, key race_pass) complements but does not decide")
 	r.Assume("more than 3 threads / 2 iterations and preemptions above the bound are outside the coverage statement")
 	r.Finish()
